@@ -57,6 +57,10 @@ def gen_config(rng, i, tier="quick"):
         16: dict(fe="joint", nser=2, K=2, limit=3, W=4, exactW=True, beta=5.0, scalar_beta=True),
         24: dict(fe="joint", nser=3, K=2, limit=3, W=3, beta=1.0, scalar_beta=True, equal_lens=True, n_regimes=2),
         25: dict(fe="joint", nser=2, K=3, limit=3, W=2, beta=0.5, scalar_beta=True, equal_lens=True, n_regimes=3),
+        # a matrix sparsity weight that is NOT symmetric (the solver reads its upper triangle): a tempting target for an
+        # in-place symmetrisation of the caller's matrix (C19)
+        26: dict(fe="single", nser=1, K=2, limit=2, W=2, lam_form="matrix_asym", readonly=False, fortran=False, n_regimes=2),
+        27: dict(fe="joint", nser=2, K=2, limit=2, W=1, lam_form="matrix_asym", readonly=False, fortran=False, n_regimes=2),
         # one gross outlier: it becomes a one-point cluster, is repopulated at the start of a round and won back by
         # the relabelling, so the run 'converges' in a round that began with a repopulation
         18: dict(fe="single", K=3, limit=15, m=2, W=1, N=2, beta=0.1, scalar_beta=True, biased=True, eps=0,
@@ -118,6 +122,11 @@ def gen_config(rng, i, tier="quick"):
         c["beta_form"] = "vector_var"
     if forced.get("scalar_beta"):
         c["beta_form"] = "float"
+    for key in ("lam_form", "readonly", "fortran"):
+        if key in forced:
+            c[key] = forced[key]
+    if c["lam_form"] == "matrix_asym" and c["lam"] == 0.0:
+        c["lam"] = 0.11
     return c
 
 
@@ -161,6 +170,9 @@ def build_inputs(c):
         r = np.random.default_rng(c["data_seed"] + 1)
         a = r.uniform(0.5, 1.5, size=(nw, nw)) * float(c["lam"])
         lam = (a + a.T) / 2
+    elif lf == "matrix_asym":
+        r = np.random.default_rng(c["data_seed"] + 1)
+        lam = np.ascontiguousarray(r.uniform(0.5, 1.5, size=(nw, nw)) * float(c["lam"]))
     elif lf == "int":
         lam = int(lam)
     elif lf == "float":
@@ -249,7 +261,7 @@ def traced_run(c, fault_plan=None, keep_model=False):
            "biased": bool(c["biased"]), "eps": float(c["eps"]), "epsPos": c["eps"] > 0,
            "P": c["P"], "mp": bool(c["mp"]), "lamDig": proj.val_dig(hyper["sparsity_weight"]),
            "betaDig": proj.val_dig(hyper["label_switching_cost"]), "betaForm": c.get("beta_form", "float"),
-           "lamForm": c.get("lam_form", "float"), "scale": c["scale"], "cfg": c}
+           "lamForm": c.get("lam_form", "float"), "scale": c["scale"], "cfg": c, "scripted": bool(c.get("script"))}
     hdr["fault"] = ({"kind": "wrong_front_end"} if c.get("swap") else {"kind": "invalid_argument"} if c.get("invalid") else
                     dict(fault_plan) if fault_plan else {"kind": c.get("expect", "none")})
     hdr["timeLimitMs"] = int(c.get("time_limit_ms", 120000))
@@ -266,6 +278,9 @@ def traced_run(c, fault_plan=None, keep_model=False):
     random.seed(c["rng_seed"])
     marker = os.path.join(tracedir, "fault.fired")
     faults.install(fault_plan, c.get("delay_seed"), marker)
+    if c.get("script"):
+        from . import scripted
+        scripted.install(c["script"], K)
     vh.install_sink(rec)
     res, exc = None, None
     t0 = time.time()
@@ -284,6 +299,8 @@ def traced_run(c, fault_plan=None, keep_model=False):
     finally:
         vh.install_sink(None)
         faults.uninstall()
+        if c.get("script"):
+            scripted.uninstall()
     elapsed = time.time() - t0
     args_same = (arg_snap == {"series": [proj.dig(s) for s in series], "lam": proj.dig(hyper["sparsity_weight"]),
                               "beta": proj.dig(hyper["label_switching_cost"])})
@@ -383,6 +400,10 @@ def return_event(c, hdr, rec, res, series, args_same):
             continue
         o7.append(obs.o7_ll(vals, data[idx], fm.clusters[k].stacked_data_mean, fm.clusters[k].train_inverse))
     ev["o7final"] = o7
+    ev["o7result"] = obs.o7_result(all_ll, res.overall_log_likelihood, res.overall_log_likelihood_mean,
+                                   res.overall_log_likelihood_median, data, labels,
+                                   [cl.stacked_data_mean for cl in fm.clusters],
+                                   [cl.train_inverse for cl in fm.clusters])
     ev["o2final"] = [obs.o2_spd(cl.train_inverse, cl.log_determinant) for cl in fm.clusters]
     # ---- C16: BIC by definition
     thetas = [np.asarray(cl.train_inverse) for cl in fm.clusters]
